@@ -703,6 +703,11 @@ func (p *Parser) preNested(quote quoteState) (s saveState) {
 
 func (p *Parser) postNested(s saveState) {
 	p.quote, p.buriedHdocs = s.quote, s.buriedHdocs
+	if p.tok == _Newl && len(p.heredocs) > p.buriedHdocs {
+		// The nested state ended at a newline, such as "let x" followed by
+		// a newline, which hid any heredocs pending in the outer state.
+		p.doHeredocs()
+	}
 }
 
 func (p *Parser) unquotedWordBytes(w *Word) ([]byte, bool) {
